@@ -334,11 +334,11 @@ def _sh_text(tier):
 
 
 def _sh_rsa(tier):
+    one = product_pins(nlines=[1], n0=[0, 1, 2, 3], n1=[0], h1=[0])
     if tier == "quick":
-        return product_pins(nlines=[1], n0=[0, 1, 2, 3], n1=[0], h1=[0]) + \
-            product_pins(nlines=[2], n0=[1, 3], n1=[0, 1, 3], h1=[0, 1], x0=[0, 2, 6])
-    return product_pins(nlines=[1], n0=[0, 1, 2, 3], n1=[0], h1=[0]) + \
-        product_pins(nlines=[2], n0=[0, 1, 2, 3], n1=[0, 1, 2, 3], h1=[0, 1], x0=list(range(NBT)))
+        return one + product_pins(nlines=[2], n0=[1, 3], n1=[0, 1], h1=[0, 1], x0=[0, 2, 6])
+    return one + product_pins(nlines=[2], n0=[0, 1, 2, 3], n1=[0, 1], h1=[0, 1], x0=list(range(NBT))) + \
+        product_pins(nlines=[2], n0=[1, 2], n1=[2], h1=[0, 1], x0=list(range(NBT)))
 
 
 FUNCS = ["FiniteAutomaton.to_networkx", "FiniteAutomaton.from_networkx", "add_start_state_to_graph",
